@@ -49,9 +49,17 @@ CALLS = [
 ]
 
 
-def program(params, allnames, decorated):
+def program(params, allnames, decorated, captured=0):
+    """captured: 1 = every parameter is read by a nested function, 2 = by a nested class body and rebound by a nested function
+    (the bound values must reach the inner scopes whatever the kind of the parameter)"""
     deco = "@dec(1)\n@dec(2)\n" if decorated else ""
     ret = "(" + ", ".join(allnames) + ("," if allnames else "") + ")"
+    if captured == 1 and allnames:
+        return f"{deco}def f({params}):\n    def inner():\n        return {ret}\n    return inner()\nlog('defined')\n"
+    if captured == 2 and allnames:
+        nl = ", ".join(allnames)
+        return (f"{deco}def f({params}):\n    class Box:\n        seen = {ret}\n    def bump():\n        nonlocal {nl}\n"
+                f"        {allnames[0]} = ('rebound', {allnames[0]})\n    bump()\n    return (Box.seen, {ret})\nlog('defined')\n")
     return f"{deco}def f({params}):\n    return {ret}\nlog('defined')\n"
 
 
@@ -129,7 +137,7 @@ def run(chk, build, replay=None):
         sel = shapes
     progs = []
     for i, (params, names) in enumerate(sel):
-        progs.append(program(params, names, decorated=(i % 3 == 0)))
+        progs.append(program(params, names, decorated=(i % 3 == 0), captured=(i // 3) % 3))
     replayed = propkit.load_replay_sources(replay)
     if replayed:
         progs = replayed
